@@ -69,6 +69,10 @@ func zzBuildGraph(n int) *zzGraph {
 			if zzverif.Bool("edge") {
 				g.edges[i][j] = true
 				c.Parents = append(c.Parents, g.sums[j])
+				if zzverif.Param("mono", 0) == 1 {
+					// reduced space: a child is strictly newer than its parents
+					zzverif.Assume(c.Time.After(g.commits[j].Time))
+				}
 			}
 		}
 		g.commits[i] = c
@@ -179,6 +183,19 @@ func Harness_C11_base() {
 		}
 	}
 	zzverif.Region("parent-not-older-than-child", skew)
+	merge := false
+	for i := 0; i < n; i++ {
+		np := 0
+		for j := 0; j < i; j++ {
+			if g.edges[i][j] {
+				np++
+			}
+		}
+		if np >= 2 {
+			merge = true
+		}
+	}
+	zzverif.Region("a-merge-commit-in-the-history", merge)
 	base, err := SeekCommonAncestor(g.db, sums...)
 	exists := false
 	for c := 0; c < n; c++ {
@@ -192,6 +209,7 @@ func Harness_C11_base() {
 			exists = true
 		}
 	}
+	zzverif.Region("three-or-more-inputs-without-a-common-ancestor", k > 2 && !exists)
 	if err != nil {
 		zzverif.Assert("base-missing-only-when-none-exists", !exists)
 		zzverif.Reach("none")
